@@ -411,8 +411,12 @@ type Enum struct {
 // violation (the first violation's case becomes the replay file).
 func RunEnum(t *testing.T, id, sub string, exhaustive bool, body func(e *Enum)) {
 	t.Helper()
-	if p, _ := replayFor(id, sub); p != "" {
-		// Enumerations are deterministic: a replay simply re-runs the enumeration.
+	if p, ff := replayFor(id, sub); p != "" {
+		// Enumerations are deterministic: a replay of one of their cases simply re-runs
+		// the enumeration; replay files of other checks are not theirs to judge.
+		if ff != nil && (ff.ID != id || ff.Sub != sub) {
+			t.Skipf("replay file is for %s/%s", ff.ID, ff.Sub)
+		}
 	}
 	r := newRunner(id, sub)
 	r.st.Exhaustive = exhaustive
